@@ -45,6 +45,7 @@ type Engine struct {
 	bmaps              map[*ssa.Global]map[int64]int64
 	smaps              map[*ssa.Global][]int64
 	atLike             map[*ssa.Function]int // 0 unknown, 1 exact, 2 case-insensitive, -1 not an at-like function
+	atOff              map[*ssa.Function]int // at-like functions with an offset parameter: its index in Params
 	steps              int
 	maxSteps           int
 	stackCtx           []string // per frame of stack: the function values the frame was called with
@@ -786,7 +787,7 @@ func (e *Engine) run(fn *ssa.Function, entry *State, args []AbsVal) []exitState 
 		var sb strings.Builder
 		for _, rv := range x.ret {
 			if c, ok := rv.constInt(); ok {
-				fmt.Fprintf(&sb, "%d,", c)
+				fmt.Fprintf(&sb, "%d%s,", c, rv.emsg)
 			} else {
 				sb.WriteString("?,")
 			}
@@ -1667,6 +1668,9 @@ func tableValuesMasked(t *[256]int64, mask int64, set ByteSet) AbsVal {
 func (e *Engine) eqTable(t *[256]int64, mask, k int64) *[256]bool {
 	e.itabMu.Lock()
 	defer e.itabMu.Unlock()
+	if e.derived == nil {
+		e.derived = map[string]*[256]bool{}
+	}
 	key := fmt.Sprintf("%p/%d==%d", t, mask, k)
 	if b, ok := e.derived[key]; ok {
 		return b
@@ -1679,10 +1683,35 @@ func (e *Engine) eqTable(t *[256]int64, mask, k int64) *[256]bool {
 	return &b
 }
 
+// cmpTable: the [256]bool table "table[c] & mask  op  k".
+func (e *Engine) cmpTable(t *[256]int64, mask int64, op token.Token, k int64) *[256]bool {
+	e.itabMu.Lock()
+	defer e.itabMu.Unlock()
+	if e.derived == nil {
+		e.derived = map[string]*[256]bool{}
+	}
+	if e.itables == nil {
+		e.itables = map[string]*[256]int64{}
+	}
+	key := fmt.Sprintf("%p/%d%s%d", t, mask, op, k)
+	if b, ok := e.derived[key]; ok {
+		return b
+	}
+	var b [256]bool
+	for i := range t {
+		b[i] = cmpInts(t[i]&mask, op, k)
+	}
+	e.derived[key] = &b
+	return &b
+}
+
 // classTable: the [256]bool table "table[c] & mask != 0" (one object per (table, mask): tables are compared by identity).
 func (e *Engine) classTable(t *[256]int64, mask int64) *[256]bool {
 	e.itabMu.Lock()
 	defer e.itabMu.Unlock()
+	if e.derived == nil {
+		e.derived = map[string]*[256]bool{}
+	}
 	key := fmt.Sprintf("%p/%d", t, mask)
 	if b, ok := e.derived[key]; ok {
 		return b
@@ -1718,6 +1747,12 @@ func (e *Engine) store(st *State, in *ssa.Store) {
 			// a store that changes the length of a tracked stack invalidates facts about it
 		case v.k == vInt || v.k == vSlice:
 			st.heap[path] = v
+			if path == e.cfg.ErrPath && v.emsg != "" {
+				// an error value built elsewhere (returned by a scanner, `p.err = err`) and recorded here
+				if c, isC := v.constInt(); isC && c == 1 {
+					st.errMsg = v.emsg
+				}
+			}
 		default:
 			// error-typed fields: track nil-ness
 			if isErrorType(in.Val.Type()) {
@@ -1749,8 +1784,11 @@ func (e *Engine) store(st *State, in *ssa.Store) {
 						break
 					}
 				}
-				if _, ok := in.Val.(*ssa.MakeInterface); ok {
+				if mi, ok := in.Val.(*ssa.MakeInterface); ok {
 					st.heap[path] = intVal(1)
+					if iv := e.eval(st, mi.X); iv.emsg != "" && path == e.cfg.ErrPath {
+						st.errMsg = iv.emsg // an error value built elsewhere (returned by a scanner) and recorded here
+					}
 					break
 				}
 			}
@@ -2070,6 +2108,26 @@ func (e *Engine) cmp(st *State, a, b AbsVal, op token.Token, xv, yv ssa.Value) A
 		}
 		if bConst && kb == 0 && op == token.GTR {
 			return AbsVal{k: vTable, table: e.classTable(a.itable, a.mask), tabX: a.tabX}
+		}
+		if bConst && isCmp(op) {
+			// any comparison of the (masked) table value with a constant is a predicate of the byte
+			tab := e.cmpTable(a.itable, a.mask, op, kb)
+			set := e.eval(st, a.tabX).byteSet()
+			allT, allF := true, true
+			for _, c := range set.members() {
+				if tab[c] {
+					allF = false
+				} else {
+					allT = false
+				}
+			}
+			if allT {
+				return boolVal(true)
+			}
+			if allF {
+				return boolVal(false)
+			}
+			return AbsVal{k: vTable, table: tab, tabX: a.tabX}
 		}
 	case vIdx:
 		if bConst {
